@@ -99,9 +99,12 @@ INITIAL_MESH = {'UnitSquare': 'UnitSquareBoundaryRefined', 'PiSquare': 'PiSquare
                 'LShapeDriver': 'LShapeBoundaryRefined'}
 # problem -> (g problem or None, M0 problem or None)
 PROBLEMS = {'Dirichlet': ('Dirichlet', None), 'MildSingular': ('MildSingular', None), 'Singular': (None, 'Singular'),
-            'Smooth': (None, 'Smooth'), 'Dirichlet+Singular': ('Dirichlet', 'Singular')}
+            'Smooth': (None, 'Smooth'), 'Dirichlet+Singular': ('Dirichlet', 'Singular'),
+            # a NON-constant Dirichlet datum (g = t^2) together with initial data: the two-level functions have zero mean, so a constant
+            # datum is invisible to the hierarchical indicators
+            'MildSingular+Singular': ('MildSingular', 'Singular')}
 INITIAL_COMBOS = (('UnitSquare', 'Singular'), ('LShapeDriver', 'Singular'), ('UnitSquare', 'Smooth'),
-                  ('PiSquare', 'Smooth'), ('UnitSquare', 'Dirichlet+Singular'))
+                  ('PiSquare', 'Smooth'), ('UnitSquare', 'Dirichlet+Singular'), ('UnitSquare', 'MildSingular+Singular'))
 
 
 # =====================================================================================================
